@@ -1,92 +1,76 @@
 (** C08 — property theorems.  This file contains nothing but statements closed by [exact].
 
-    Vocabulary (Model.v): [cfg] = storage variant + capacity; [run cf sched s] executes a schedule,
-    i.e. ANY list of atomic steps of the gameplay thread (G_reserve, G_drain_one, G_drain_done,
-    G_push, G_mark p) and of the audio thread (A_start, A_remove, A_push, A_add) in ANY interleaving;
-    [resolve s k] is what id [k] resolves to in the arena ([Arena::get]); [res_len] is what
-    [num_*] reports; [ctl_try_reserve] is [try_reserve].  ProofsInv.v: the structural invariant
-    [Inv] and the queue bound [QInv]; ProofsRun.v: [racy] / [race_free] — a schedule is race-free if
-    the gameplay thread's drain never observes the unused-ring empty ([G_drain_done]) while the audio
-    thread holds a payload it has already removed from the arena but not yet pushed (finding F22);
-    ProofsProps.v: [gone s k] = the slot of [k] has been freed since [k] was handed out. *)
+    The model is that of the repaired tree (/repo 1316c08: capacity 0 answers the limit error;
+    38abf69: the unused-resource ring has capacity + 1 slots).
+
+    Vocabulary (Model.v): [cfg] = storage variant + capacity (ANY capacity, 0 included);
+    [run cf sched s] executes a schedule, i.e. ANY list of atomic steps of the gameplay thread
+    (G_reserve, G_drain_one, G_drain_done, G_push, G_mark p) and of the audio thread (A_start,
+    A_remove, A_push, A_add) in ANY interleaving; [resolve s k] is what id [k] resolves to in the
+    arena ([Arena::get]); [res_len] is what [num_*] reports; [res_try_reserve] is
+    [ResourceController::try_reserve].  ProofsInv.v: the structural invariant [Inv] and the queue
+    bound [QInv]; ProofsProps.v: [gone s k] = the slot of [k] has been freed since [k] was handed
+    out. *)
 From Coq Require Import Arith List Bool Permutation.
 From KV Require Import Base.Outcome C08.Model C08.ProofsBase C08.ProofsInv C08.ProofsRun C08.ProofsProps.
 Import ListNotations.
 
-(** For every capacity >= 1, both storage variants and EVERY race-free schedule: no step panics —
-    "unused resource producer is full", "new resource producer full", "error inserting resource" and
-    every index panic are unreachable — and [Inv] and [QInv] hold in the state reached:
-    alive + in-new-queue + reserved <= capacity; unused + in-flight + alive + new (+1 between the drain
-    and the push) <= capacity; the free list threaded through the slots is duplicate-free and lists
-    exactly the free slots; arena and controller generations agree; every payload is in exactly one
-    place. *)
+(** For every capacity, both storage variants and EVERY schedule: no step panics — "unused resource
+    producer is full", "new resource producer full", "error inserting resource" and every index
+    panic are unreachable — and [Inv] and [QInv] hold in the state reached:
+    alive + in-new-queue + reserved <= capacity; unused + in-flight + alive + new (+1 between the
+    drain and the push) <= capacity + 1 (the size of the unused-ring); the free list threaded through
+    the slots is duplicate-free and lists exactly the free slots; arena and controller generations
+    agree; every payload is in exactly one place. *)
 Theorem res_invariant :
   forall (cf : cfg) (sched : list label),
-    1 <= cap cf -> race_free cf sched (init cf) ->
     exists s, run cf sched (init cf) = Ok s /\ Inv cf s /\ QInv cf s.
 Proof. exact res_invariant_proof. Qed.
 
-(** For EVERY schedule (racy or not) the structural invariant holds in every state reached … *)
-Theorem res_invariant_all_schedules :
-  forall (cf : cfg) (sched : list label) (s : state),
-    1 <= cap cf -> run cf sched (init cf) = Ok s -> Inv cf s.
-Proof. exact res_invariant_core_proof. Qed.
-
-(** … and from a state satisfying it the ONLY step that can fail is the audio thread's push into the
-    unused-ring, with "unused resource producer is full" (so the new-queue never overflows,
-    [insert_with_key] never fails, no index is ever out of bounds — for all interleavings). *)
-Theorem only_unused_push_can_panic :
-  forall (cf : cfg) (l : label) (s : state),
-    Inv cf s ->
-    (exists s', step cf l s = Ok s' /\ Inv cf s') \/ (l = A_push /\ step cf l s = Panic QueueFull).
-Proof. exact step_cases. Qed.
-
-(** Both invariants together are inductive for every step that is not the race. *)
+(** The invariant is inductive: every step of either thread from ANY state satisfying it succeeds
+    and re-establishes it. *)
 Theorem res_invariant_inductive :
   forall (cf : cfg) (l : label) (s : state),
-    Inv cf s -> QInv cf s -> ~ racy l s ->
+    Inv cf s -> QInv cf s ->
     exists s', step cf l s = Ok s' /\ Inv cf s' /\ QInv cf s'.
 Proof. exact step_ok. Qed.
 
-(** F22: with the race the audio thread panics "unused resource producer is full" (capacity 1,
-    sounds / tracks; the witness schedule is not race-free). *)
-Theorem unused_full_refuted :
-  run (mkCfg false true 1) f22_sched (init (mkCfg false true 1)) = Panic QueueFull /\
-  ~ race_free (mkCfg false true 1) f22_sched (init (mkCfg false true 1)).
-Proof. exact unused_full_refuted_proof. Qed.
+(** The [is_full] guard of [SelfReferentialResourceStorage::remove_unused] never cuts a removal pass
+    short (and [ResourceStorage]'s push never fails): whenever the audio thread is about to inspect a
+    key, the unused-ring has room. *)
+Theorem is_full_guard_never_fires :
+  forall cf sched s k rest,
+    run cf sched (init cf) = Ok s -> st_a s = ARemoving (k :: rest) ->
+    ring_is_full (unused_cap cf) (st_unused s) = false.
+Proof. exact is_full_guard_never_fires_proof. Qed.
 
-(** Exact capacity accounting in every reachable state, for ALL schedules: the reported capacity is
-    the configured one; the reported count is alive + queued + reserved = keys handed out - slots
-    freed, and never exceeds the capacity; [try_reserve] succeeds (with a free slot) exactly when the
-    count is below the capacity and otherwise returns the limit error — it never panics. *)
+(** Exact capacity accounting in every reachable state, for ALL schedules and ALL capacities: the
+    reported capacity is the configured one; the reported count is alive + queued + reserved = keys
+    handed out - slots freed, and never exceeds the capacity; [try_reserve] succeeds (with a free
+    slot) exactly when the count is below the capacity and otherwise returns the limit error — it
+    never panics. *)
 Theorem capacity_exact :
   forall cf sched s,
-    1 <= cap cf -> run cf sched (init cf) = Ok s ->
+    run cf sched (init cf) = Ok s ->
     res_capacity s = cap cf /\
     res_len s = length (aorder (st_ar s)) + length (st_newq s) + length (gres (st_g s)) /\
     res_len s + st_removed s = st_created s /\
     res_len s <= cap cf /\
     (res_len s < cap cf ->
-       exists k c', ctl_try_reserve (st_ctl s) = Ok (Reserved k c') /\
+       exists k c', res_try_reserve (st_ctl s) = Ok (Reserved k c') /\
                     kidx k < cap cf /\ cfree (cs s (kidx k)) = true) /\
-    (res_len s = cap cf -> ctl_try_reserve (st_ctl s) = Ok ArenaFull).
+    (res_len s = cap cf -> res_try_reserve (st_ctl s) = Ok ArenaFull).
 Proof. exact capacity_exact_proof. Qed.
 
-(** Capacity 0 (F2): the very first [try_reserve] panics with an index out of bounds. *)
-Theorem capacity_zero_refuted :
-  forall sr pb : bool, run (mkCfg sr pb 0) [G_reserve] (init (mkCfg sr pb 0)) = Panic OutOfBounds.
-Proof. exact capacity_zero_refuted_proof. Qed.
-
-(** Prompt removal (race-free schedules): a resource that is marked and resolves at a moment when
-    the audio thread is between callbacks no longer resolves, and its slot has been freed, in every
+(** Prompt removal, for ALL schedules: a resource that is marked and resolves at a moment when the
+    audio thread is between callbacks no longer resolves, and its slot has been freed, in every
     state reached after the next callback's [remove_and_add] has completed — whatever the gameplay
     thread does meanwhile. *)
 Theorem prompt_removal :
   forall cf sched1 s1 k p sched2 s2,
-    1 <= cap cf ->
-    race_free cf sched1 (init cf) -> run cf sched1 (init cf) = Ok s1 ->
+    run cf sched1 (init cf) = Ok s1 ->
     st_a s1 = AIdle -> resolve s1 k = Ok (Some p) -> In p (st_marked s1) ->
-    race_free cf sched2 s1 -> run cf sched2 s1 = Ok s2 -> st_callbacks s1 < st_callbacks s2 ->
+    run cf sched2 s1 = Ok s2 -> st_callbacks s1 < st_callbacks s2 ->
     resolve s2 k = Ok None /\ gone s2 k.
 Proof. exact prompt_removal_proof. Qed.
 
@@ -94,34 +78,20 @@ Proof. exact prompt_removal_proof. Qed.
     the next one, and removed by the one after. *)
 Theorem prompt_removal_queued :
   forall cf sched1 s1 k p sched2 s2,
-    1 <= cap cf ->
-    race_free cf sched1 (init cf) -> run cf sched1 (init cf) = Ok s1 ->
+    run cf sched1 (init cf) = Ok s1 ->
     In (k, p) (st_newq s1) -> In p (st_marked s1) ->
-    race_free cf sched2 s1 -> run cf sched2 s1 = Ok s2 ->
+    run cf sched2 s1 = Ok s2 ->
     (st_callbacks s1 + 1 <= st_callbacks s2 -> resolve s2 k = Ok (Some p) \/ gone s2 k) /\
     (st_callbacks s1 + 2 <= st_callbacks s2 -> resolve s2 k = Ok None /\ gone s2 k).
 Proof. exact prompt_removal_queued_proof. Qed.
 
-(** F22, clocks / modulators / listeners: after the race the storage does not panic but stops
-    removing — a marked resource present at the start of a callback is still there after it. *)
-Theorem prompt_removal_refuted :
-  let cf := mkCfg true false 1 in
-  exists s1 s2,
-    run cf f22_prefix (init cf) = Ok s1 /\ st_a s1 = AIdle /\
-    resolve s1 (mkKey 0 1) = Ok (Some 1) /\ In 1 (st_marked s1) /\
-    run cf [A_start; A_remove; A_push; A_add; A_add] s1 = Ok s2 /\
-    st_callbacks s1 < st_callbacks s2 /\ st_a s2 = AIdle /\
-    resolve s2 (mkKey 0 1) = Ok (Some 1).
-Proof. exact prompt_removal_refuted_proof. Qed.
-
 (** In every state reached by ANY schedule: payloads have been destroyed on the gameplay (caller's)
     thread only, each at most once; every payload ever built is in exactly one of: new-queue, arena,
-    unused-ring, in flight, destroyed; and no successful audio-thread step destroys (or builds) a
-    payload.  (The one failing audio step, the panic of F22, unwinds through the [PushError] that
-    holds the payload: that payload IS dropped on the audio thread; see [unused_full_refuted].) *)
+    unused-ring, in flight, destroyed; and no audio-thread step destroys (or builds) a payload.
+    (By [res_invariant] no step fails, so no unwinding drops anything either.) *)
 Theorem destroyed_on_caller :
   forall cf sched s,
-    1 <= cap cf -> run cf sched (init cf) = Ok s ->
+    run cf sched (init cf) = Ok s ->
     (forall p t, In (p, t) (st_destroyed s) -> t = Gameplay) /\
     NoDup (map fst (st_destroyed s)) /\
     Permutation (seq 0 (st_next s))
@@ -138,36 +108,59 @@ Proof. exact destroyed_on_caller_proof. Qed.
     every key ever issued before (a reused slot carries a larger generation). *)
 Theorem no_stale_ids :
   forall cf sched s,
-    1 <= cap cf -> run cf sched (init cf) = Ok s ->
+    run cf sched (init cf) = Ok s ->
     (forall k p, resolve s k = Ok (Some p) -> In (p, k) (st_log s)) /\
     (forall p p' k, In (p, k) (st_log s) -> In (p', k) (st_log s) -> p = p') /\
     (forall k, kidx k < cap cf -> gone s k ->
                forall sched2 s2, run cf sched2 s = Ok s2 -> resolve s2 k = Ok None /\ gone s2 k) /\
     (forall k p, In (p, k) (st_log s) -> resolve s k = Ok None -> ~ In (k, p) (st_newq s) -> gone s k) /\
-    (forall k c', ctl_try_reserve (st_ctl s) = Ok (Reserved k c') -> forall p, ~ In (p, k) (st_log s)).
+    (forall k c', res_try_reserve (st_ctl s) = Ok (Reserved k c') -> forall p, ~ In (p, k) (st_log s)).
 Proof. exact no_stale_ids_proof. Qed.
 
-(** Non-vacuity: race-free schedules reaching states that meet the hypotheses of [prompt_removal]
-    and [prompt_removal_queued], and an interleaved race-free run in which a slot is reused (the old
-    id stays dead, the new id resolves to the new payload, the old payload was destroyed by the
-    gameplay thread, the storage is full and [try_reserve] answers with the limit error). *)
+(** Non-vacuity: reachable states meeting the hypotheses of [prompt_removal] and
+    [prompt_removal_queued], and an interleaved run in which a slot is reused (the old id stays
+    dead, the new id resolves to the new payload, the old payload was destroyed by the gameplay
+    thread, the storage is full and [try_reserve] answers with the limit error). *)
 Theorem example_present :
-  race_free ex_cf ex_sched_present (init ex_cf) /\
   exists s1, run ex_cf ex_sched_present (init ex_cf) = Ok s1 /\ st_a s1 = AIdle /\
              resolve s1 (mkKey 0 0) = Ok (Some 0) /\ In 0 (st_marked s1).
-Proof. exact (conj ex_present_rf ex_present). Qed.
+Proof. exact ex_present. Qed.
 
 Theorem example_queued :
-  race_free ex_cf ex_sched_queued (init ex_cf) /\
   exists s1, run ex_cf ex_sched_queued (init ex_cf) = Ok s1 /\
              In (mkKey 0 0, 0) (st_newq s1) /\ In 0 (st_marked s1).
-Proof. exact (conj ex_queued_rf ex_queued). Qed.
+Proof. exact ex_queued. Qed.
 
 Theorem example_reuse :
-  race_free ex_cf ex_sched_reuse (init ex_cf) /\
   exists s, run ex_cf ex_sched_reuse (init ex_cf) = Ok s /\
             gone s (mkKey 0 0) /\ resolve s (mkKey 0 0) = Ok None /\
             resolve s (mkKey 0 1) = Ok (Some 2) /\ resolve s (mkKey 1 0) = Ok (Some 1) /\
             st_destroyed s = [(0, Gameplay)] /\ res_len s = 2 /\
-            ctl_try_reserve (st_ctl s) = Ok ArenaFull.
-Proof. exact (conj ex_reuse_rf ex_reuse). Qed.
+            res_try_reserve (st_ctl s) = Ok ArenaFull.
+Proof. exact ex_reuse. Qed.
+
+(** Regression, F27 (was [unused_full_refuted] / [prompt_removal_refuted]): the schedule in which a
+    whole create runs between the audio thread's arena removal and its push into the unused-ring,
+    capacity 1, both storage variants — the last callback now removes resource 1 (it no longer
+    resolves, the count is 0) and both payloads wait in the unused-ring for the caller. *)
+Theorem f27_regression :
+  forall sr pb : bool,
+    let cf := mkCfg sr pb 1 in
+    exists s1 s2,
+      run cf f27_prefix (init cf) = Ok s1 /\ st_a s1 = AIdle /\
+      resolve s1 (mkKey 0 1) = Ok (Some 1) /\ In 1 (st_marked s1) /\ st_unused s1 = [0] /\
+      run cf f27_callback s1 = Ok s2 /\
+      st_callbacks s1 < st_callbacks s2 /\ st_a s2 = AIdle /\
+      resolve s2 (mkKey 0 1) = Ok None /\ st_unused s2 = [0; 1] /\ st_destroyed s2 = [] /\
+      res_len s2 = 0.
+Proof. exact f27_regression_proof. Qed.
+
+(** Regression, F2 (was [capacity_zero_refuted]): capacity 0 answers with the limit error. *)
+Theorem capacity_zero_regression :
+  forall sr pb : bool,
+    let cf := mkCfg sr pb 0 in
+    res_try_reserve (st_ctl (init cf)) = Ok ArenaFull /\
+    exists s, run cf [G_reserve; G_drain_done; G_push; A_start; A_remove; A_add; A_add] (init cf) = Ok s /\
+              st_g s = GIdle /\ res_len s = 0 /\ st_created s = 0 /\
+              st_destroyed s = (if pb then [(0, Gameplay)] else []).
+Proof. exact capacity_zero_regression_proof. Qed.
